@@ -797,6 +797,94 @@ func runC05(r *ev.Run) {
 				r.Sample(map[string]interface{}{"index_config": cfg.name, "start": e.descState(s), "example_batch_to": e.descState(e.decode(valid[(i+7)%len(valid)]))})
 			}
 		})
+		// refused operations: a checked Create / Update that would duplicate a schema-index value is refused and must leave
+		// every index as it was (followed, at depth 2, by an operation that is accepted)
+		hasSchema := false
+		for _, ix := range e.indexes {
+			if ix.schema {
+				hasSchema = true
+			}
+		}
+		if hasSchema {
+			par.For(len(valid), r.Expired, func(i int) {
+				s := e.decode(valid[i])
+				for u := range s {
+					for v := 0; v < e.nvals; v++ {
+						if s[u] == v {
+							continue
+						}
+						s2 := append(c05State{}, s...)
+						s2[u] = v
+						if e.valid(s2) {
+							continue
+						}
+						tc := e.newCache()
+						if err := e.build(tc, s); err != nil {
+							panic(err)
+						}
+						var err error
+						op := "Create"
+						if s[u] < 0 {
+							err = tc.Table("T").Create(c05UUIDs[u], e.mk(c05UUIDs[u], c05Universe[v]), true)
+						} else {
+							op = "Update"
+							_, err = tc.Table("T").Update(c05UUIDs[u], e.mk(c05UUIDs[u], c05Universe[v]), true)
+						}
+						r.Add("transitions", 1)
+						r.Add("refused_operations", 1)
+						cse := c05Case{cfg.name, "checked " + op, e.descState(s), nil, []string{fmt.Sprintf("%s %s := value %d (refused)", op, c05UUIDs[u][34:], v)}, nil, "", []interface{}{s}}
+						if err == nil {
+							r.Violation("c05.checked-"+op+".duplicate-accepted", fmt.Sprintf("[%s] checked %s of %s with value %d duplicates a schema index value and is accepted", cfg.name, op, c05UUIDs[u][34:], v), cse)
+							continue
+						}
+						if kind, typ, msg := e.check(tc, s, true); msg != "" {
+							cse.Msg = msg
+							r.Violation(fmt.Sprintf("c05.after-refused-%s.%s.%s", op, typ, kind), fmt.Sprintf("[%s] after the refused %s of %s (value %d): %s", cfg.name, op, c05UUIDs[u][34:], v, msg), cse)
+							continue
+						}
+						// and the cache is as usable as before: every accepted single-row operation from s still works
+						for u2 := range s {
+							for v2 := -1; v2 < e.nvals; v2++ {
+								if s[u2] == v2 {
+									continue
+								}
+								s3 := append(c05State{}, s...)
+								s3[u2] = v2
+								if !e.valid(s3) || (u2+v2+u+v)%3 != 0 {
+									continue
+								}
+								tc2 := e.newCache()
+								_ = e.build(tc2, s)
+								if s[u] < 0 {
+									_ = tc2.Table("T").Create(c05UUIDs[u], e.mk(c05UUIDs[u], c05Universe[v]), true)
+								} else {
+									_, _ = tc2.Table("T").Update(c05UUIDs[u], e.mk(c05UUIDs[u], c05Universe[v]), true)
+								}
+								var err2 error
+								switch {
+								case s[u2] < 0:
+									err2 = tc2.Table("T").Create(c05UUIDs[u2], e.mk(c05UUIDs[u2], c05Universe[v2]), true)
+								case v2 < 0:
+									err2 = tc2.Table("T").Delete(c05UUIDs[u2])
+								default:
+									_, err2 = tc2.Table("T").Update(c05UUIDs[u2], e.mk(c05UUIDs[u2], c05Universe[v2]), true)
+								}
+								r.Add("transitions", 1)
+								if err2 != nil {
+									cse.Msg = err2.Error()
+									r.Violation("c05.after-refused-"+op+".next-operation-refused", fmt.Sprintf("[%s] after the refused %s of %s (value %d), the valid operation %s -> value %d is refused: %v", cfg.name, op, c05UUIDs[u][34:], v, c05UUIDs[u2][34:], v2, err2), cse)
+									continue
+								}
+								if kind, typ, msg := e.check(tc2, s3, true); msg != "" {
+									cse.Msg = msg
+									r.Violation(fmt.Sprintf("c05.after-refused-%s.then.%s.%s", op, typ, kind), fmt.Sprintf("[%s] after the refused %s of %s (value %d) and then %s -> value %d: %s", cfg.name, op, c05UUIDs[u][34:], v, c05UUIDs[u2][34:], v2, msg), cse)
+								}
+							}
+						}
+					}
+				}
+			})
+		}
 		// depth 2 on a smaller universe: batch1 (identity order) then batch2 (all orders)
 		e2 := newC05Env(cfg, d2vals, nuuids)
 		var v2 []int
